@@ -291,14 +291,22 @@ KEYLIST = ','.join(gens.KEYS_ALL + [gens.ABSENT_KEY])
 
 
 def probes_c09(sh, rng):
-    return ['probe keys ' + KEYLIST, 'probe consk 1,3,40 ' + KEYLIST] + \
-           (['offk ' + rng.choice(gens.KEYS_ALL)] if rng.random() < 0.3 else [])
+    # the first and the last lookup around every step ask for the same key (redrawn now and then): an answer remembered
+    # from before the step - a cached position, a memoized hit - shows only when the very same question is asked again
+    if not getattr(sh, 'sticky_key', None) or rng.random() < 0.3:
+        sh.sticky_key = rng.choice(gens.KEYS_ALL)
+    return ['getk ' + sh.sticky_key, 'probe keys ' + KEYLIST, 'probe consk 1,3,40 ' + KEYLIST] + \
+           (['offk ' + rng.choice(gens.KEYS_ALL)] if rng.random() < 0.3 else []) + ['getk ' + sh.sticky_key]
 
 
 def probes_c10(sh, rng):
     lo = min(sh.times.values()) - 2 if sh.times else 98
     hi = max(sh.times.values()) + 2 if sh.times else 102
-    return ['probe times %d %d' % (lo, hi)] + (['offt %d' % rng.randrange(lo, hi + 1)] if rng.random() < 0.3 else [])
+    # same question before and after every step (see probes_c09)
+    if getattr(sh, 'sticky_time', None) is None or rng.random() < 0.3:
+        sh.sticky_time = rng.randrange(lo, hi + 1)
+    return ['gett %d' % sh.sticky_time, 'probe times %d %d' % (lo, hi)] + \
+           (['offt %d' % rng.randrange(lo, hi + 1)] if rng.random() < 0.3 else []) + ['gett %d' % sh.sticky_time]
 
 
 def probes_c12(sh, rng):
@@ -643,7 +651,7 @@ reg(HistProp('C17', cfg_c17, probes_c17, quick=400, thorough=12000,
 reg(HistProp('C11', cfg_c11, probes_c11, quick=300, thorough=9000,
              rule='at every close: Check of every segment + directory listing; 70% of reopens remove all/some index files; 30% '
                   'read-only reopens; stat/scan/get/key/time queries after each op; non-trivial as C01',
-             nontrivial=has_multi_layout))
+             nontrivial=has_multi_layout, extra=cnc.c11_extra))
 
 
 def resume_cases(tier):
